@@ -397,8 +397,10 @@ class MachO(BinFormat):
             elif op == BIND_OPCODE_DO_BIND_ULEB_TIMES_SKIPPING_ULEB:
                 count, cnt = read_uleb128(raw[cur:])
                 skip, cnt2 = read_uleb128(raw[cur + cnt :])
-                if count * l > self.getsize():
-                    # every bind patches a pointer inside a segment
+                room = sum(c.vmsize for c in self.cmds
+                           if c.cmd in (LC_SEGMENT, LC_SEGMENT_64) and c.filesize > 0)
+                if count * l > room:
+                    # every bind patches a pointer inside a (file-backed) segment
                     raise MachOError("bind count exceeds the size of the segments")
                 for i in range(count):
                     L.append(r.as_list())
